@@ -88,9 +88,9 @@ def build_and_audit(prop, thorough=False):
         res["log"] = out[-3000:]
         return res
     axioms = {}
-    for m in re.finditer(r"'([^']+)' depends on axioms: \[([^\]]*)\]", out.replace("\n", " ")):
+    for m in re.finditer(r"'(\S+)' depends on axioms: \[([^\]]*)\]", out.replace("\n", " ")):
         axioms[m.group(1)] = [a.strip() for a in m.group(2).split(",") if a.strip()]
-    for m in re.finditer(r"'([^']+)' does not depend on any axioms", out):
+    for m in re.finditer(r"'(\S+)' does not depend on any axioms", out):
         axioms[m.group(1)] = []
     res["axioms"] = axioms
     missing = [t for t in thms if t not in axioms]
